@@ -72,9 +72,11 @@ def run(cx):
 
     def cursor_field(st):
         """2 / 3 for `<entry>[2] += 1` / `<entry>[3] += 1` (entry: a name or <stack>[-1]), else None"""
-        if isinstance(st, ast.AugAssign) and isinstance(st.op, ast.Add) and const(st.value, int) and st.value.value == 1 and isinstance(st.target, ast.Subscript) \
-                and const(st.target.slice, int) and st.target.slice.value in (2, 3):
-            return st.target.slice.value
+        if isinstance(st, ast.AugAssign) and isinstance(st.op, ast.Add) and const(st.value, int) and st.value.value == 1 and isinstance(st.target, ast.Subscript):
+            from sa.guards import expand_at
+            sl = expand_at(st.target.slice, st)         # a local constant naming the field index is read through
+            if const(sl, int) and sl.value in (2, 3):
+                return sl.value
         return None
     n_ab = n_st = 0
     for c in walk_local(ver_i):
@@ -93,7 +95,12 @@ def run(cx):
             cx.ob("R03a", c, ok, why, stmt=f"abandon #{n_ab}: {norm(c)}")
             # abandoning a production also restarts its symbol index
             blk = getattr(parent(c), "body", []) if c in getattr(parent(c), "body", []) else getattr(parent(c), "orelse", [])
-            reset = any(isinstance(x, ast.Assign) and isinstance(x.targets[0], ast.Subscript) and const(x.targets[0].slice, int) and x.targets[0].slice.value == 3
+            from sa.guards import expand_at as _xa
+
+            def _idx(x):
+                sl = _xa(x.targets[0].slice, x)
+                return sl.value if const(sl, int) else None
+            reset = any(isinstance(x, ast.Assign) and isinstance(x.targets[0], ast.Subscript) and _idx(x) == 3
                         and const(x.value, int) and x.value.value == 0 and norm(x.targets[0].value) == norm(c.target.value) for x in blk)
             cx.ob("R03a", c, reset, "the next production is walked from its first symbol" if reset else "the symbol index is not reset when the production is abandoned", stmt=f"abandon #{n_ab}: reset")
         if fld == 3:
@@ -139,7 +146,13 @@ def run(cx):
             [a for a in walk_local(ver) if isinstance(a, ast.AugAssign) and norm(a.target) == ps_name]:
         cx.ob("R03a", m_, False, "symbols are added to the examined set in bulk (not after their productions were walked)")
     pa = [c for c in walk_local(ver) if isinstance(c, ast.Call) and call_name(c) == "add" and "processed" in norm(c.func.value)]
-    ok = len(pa) == 1 and any(isinstance(e, ast.Compare) and isinstance(e.ops[0], ast.GtE) and pol and "len(prod_rules)" in norm(e.comparators[0]) for e, pol in facts(pa[0]))
+    # the entry is unpacked as (symbol, productions, production index, symbol index): "all productions walked" is
+    # production index >= len(productions), whatever the four names are
+    unp = [st_ for st_ in walk_local(ver) if isinstance(st_, ast.Assign) and isinstance(st_.targets[0], ast.Tuple) and len(st_.targets[0].elts) == 4
+           and all(isinstance(x_, ast.Name) for x_ in st_.targets[0].elts)]
+    rules_n, pid_n = ("prod_rules", "cur_prod_id") if not unp else (unp[0].targets[0].elts[1].id, unp[0].targets[0].elts[2].id)
+    from sa.guards import canon_facts as _cfs
+    ok = len(pa) == 1 and ("<", pid_n, f"len({rules_n})", False) in _cfs(pa[0])
     cx.ob("R03a", pa[0] if pa else ver, ok, "a symbol counts as examined only after all its productions were walked" if ok else "symbols are marked examined before all productions are walked")
     # the constructor calls the check with the nullables of the same grammar, after the table is built
     ctor = cx.func(REL, "LLParser.__init__", "R03a")
